@@ -98,6 +98,26 @@ func c07(e *Env) {
 	}
 	preps := make([][]c07prep, len(f.clients))
 	prepReqs := map[*world.ClientReq]bool{}
+	// requests written right behind a USE, before its answer: they run in the keyspace the USE
+	// establishes if it succeeds, in the previous one if it fails - known once the USE is answered
+	type c07pipe struct {
+		use          *world.ClientReq
+		oldKS, newKS string
+		resolved     bool
+		want         string
+		attempts     []*world.Attempt
+	}
+	pipes := map[string]*c07pipe{}
+	judgePipe := func(tok string, pi *c07pipe) {
+		for _, a := range pi.attempts {
+			if a.Keyspace != pi.want {
+				w.Violate("c07-keyspace", "request-ran-in-wrong-keyspace", fmt.Sprintf("request %s was written right behind a USE (answered: keyspace in force %q) but arrived on backend connection %s whose keyspace is %q", tok, pi.want, a.Conn, a.Keyspace))
+				return
+			}
+			w.Stat("oracle.c07.pipelined_attempts_checked")
+		}
+		pi.attempts = nil
+	}
 	w.OnReply = func(req *world.ClientReq, rep *world.ClientReply) {
 		i, known := slotOf[req.Client]
 		if !known {
@@ -114,6 +134,20 @@ func c07(e *Env) {
 		}
 		s.pending = nil
 		u := s.pendUse
+		defer func() {
+			_, succeeded := rep.Frame.Body.Message.(*message.SetKeyspaceResult)
+			for tok, pi := range pipes {
+				if pi.use == req && !pi.resolved {
+					pi.resolved, pi.want = true, pi.oldKS
+					if succeeded {
+						pi.want = pi.newKS
+					}
+					if !w.Stopped() {
+						judgePipe(tok, pi)
+					}
+				}
+			}
+		}()
 		switch m := rep.Frame.Body.Message.(type) {
 		case *message.SetKeyspaceResult:
 			if !u.exists {
@@ -149,6 +183,13 @@ func c07(e *Env) {
 		}
 	}
 	w.OnAttempt = func(a *world.Attempt) {
+		if pi := pipes[a.Token]; pi != nil {
+			pi.attempts = append(pi.attempts, a)
+			if pi.resolved {
+				judgePipe(a.Token, pi)
+			}
+			return
+		}
 		want, ok := expectKS[a.Token]
 		if !ok {
 			return
@@ -321,6 +362,14 @@ func c07(e *Env) {
 				s.pendUse = u
 				s.stalled = stalledNode != nil
 				s.pending = cl.Send("use", "", world.QueryMsg(text, primitive.ConsistencyLevelOne), nil)
+				if stalledNode == nil && crashedNode == nil && c.Choose("c07pipelined", 3) == 2 {
+					// the client does not wait for the answer before its next request
+					tok := w.NewToken()
+					pipes[tok] = &c07pipe{use: s.pending, oldKS: s.ks, newKS: u.norm}
+					stt := world.DrawStmt(c, "'"+tok+"'", "t")
+					cl.Send("query", tok, world.QueryMsg(stt.Text, primitive.ConsistencyLevelOne), nil)
+					e.Res.Stats["probe.c07.request_written_behind_use"]++
+				}
 				return
 			}
 			s.left--
